@@ -66,6 +66,32 @@ fn string_of_lens(lens: &[u64], var: u64) -> Result<(String, Option<bool>), Stri
     Ok((s, if need_g { Some(true) } else { None }))
 }
 
+/// the answer of the generating run: `1 n (8 fields)*` or `0` for an error (a panic is reproduced by the exec side)
+fn enc_observation(v: &mut Vec<u64>, kind: u64, max: usize, ctx: usize, var: u64, lens: &[u64]) {
+    let Ok((s, needs_g)) = string_of_lens(lens, var) else {
+        v.push(0);
+        return;
+    };
+    let g = needs_g.unwrap_or((lens.len() + max) % 2 == 0);
+    let cfg = match kind {
+        0 => WindowConfig::Character(max, ctx, g),
+        1 => WindowConfig::Bytes(max, ctx, g),
+        _ => WindowConfig::Full(g),
+    };
+    match std::panic::catch_unwind(|| windows(&s, &cfg)) {
+        Ok(Ok(ws)) => {
+            v.push(1);
+            v.push(ws.len() as u64);
+            for w in &ws {
+                let (a, b, c, d) = w.boundaries();
+                let (e, f, gg, h) = w.byte_boundaries();
+                v.extend([a, b, c, d, e, f, gg, h].map(|x| x as u64));
+            }
+        }
+        _ => v.push(0),
+    }
+}
+
 pub fn exec(op: &str, a: &[u64]) -> Result<Outcome, String> {
     if op != "windows" {
         return Err(format!("unknown op {op}"));
@@ -76,6 +102,9 @@ pub fn exec(op: &str, a: &[u64]) -> Result<Outcome, String> {
     let ctx = r.usize()?;
     let var = r.nat()?;
     let lens = r.nats()?;
+    // the observation of the generating run (windows or "error") is for the model: how long the windows are is not
+    // fixed by the property; this run's answer is judged by the oracle below
+    let _obs = r.opt(|r| r.list(|r| Ok([r.nat()?, r.nat()?, r.nat()?, r.nat()?, r.nat()?, r.nat()?, r.nat()?, r.nat()?])))?;
     r.end()?;
     let (s, needs_g) = string_of_lens(&lens, var)?;
     // both modes give the same clusters when no cluster has more than one code point; use graphemes
@@ -95,13 +124,7 @@ pub fn exec(op: &str, a: &[u64]) -> Result<Outcome, String> {
     let n = lens.len();
     match windows(&s, &cfg) {
         Ok(ws) => {
-            let mut v = vec![ws.len() as u64];
-            for w in &ws {
-                let (a, b, c, d) = w.boundaries();
-                let (e, f, gg, h) = w.byte_boundaries();
-                v.extend([a, b, c, d, e, f, gg, h].map(|x| x as u64));
-            }
-            let mut o = Outcome::new(ok(v));
+            let mut o = Outcome::new("accept".to_string());
             if n > 0 {
                 // prefix sums: byte offset of character position k
                 let mut pre = vec![0usize];
@@ -146,7 +169,8 @@ pub fn exec(op: &str, a: &[u64]) -> Result<Outcome, String> {
         Err(e) => {
             let msg = e.to_string();
             let k = if msg.starts_with("max ") { "bad-config" } else if msg.starts_with("single character") { "too-wide" } else { "other" };
-            let mut o = Outcome::new(err(k));
+            let _ = k;
+            let mut o = Outcome::new("accept".to_string());
             if kind != 2 && max > 2 * ctx && n > 0 {
                 // valid configuration: only a character wider than the window may fail (byte windows)
                 let wl_first = max - ctx;
@@ -166,6 +190,7 @@ pub fn run_c16(ctx: &mut Ctx) {
         let var: u64 = if ctx.rng.random_range(0..3) == 0 { 0 } else { ctx.rng.random() };
         let mut v = vec![kind, max, c, var];
         enc_nats(&mut v, lens.iter().copied());
+        enc_observation(&mut v, kind, max as usize, c as usize, var, lens);
         ctx.case("windows", &v);
     };
     if ctx.first_shard() {
